@@ -10,7 +10,7 @@ CFG = dict(
                'is refuted on the faithful model (C01_refuted_mutual) and recorded as a known finding. Tie: every generated program/EDB is run '
                'on IQLEngine and compared in Coq with both the strategy model and the specification.',
     level_note='Trusted: Coq kernel; hand-written Gallina model of clause semantics (IRBuilder + Differential Dataflow operators are validated by '
-               'the correspondence, not derived); harness printers. The execution-order hypothesis order_ok is discharged for every program whose head dependency graph has a rank function (acyclic apart from self-loops) and whose query head is unused elsewhere (C01_acyclic_engine_is_perfect_model via Proofs/DatalogKahn.v: soundness and completeness of the Kahn ordering); the boolean mutual_recursion (BFS) is only used to classify known-finding cases.',
+               'the correspondence, not derived); harness printers. The execution-order hypothesis order_ok is discharged for every program whose head dependency graph has a rank function (acyclic apart from self-loops) and whose query head is unused elsewhere (C01_acyclic_engine_is_perfect_model via Proofs/DatalogKahn.v: soundness and completeness of the Kahn ordering; C01_execution_order_characterised: order_ok p holds iff such a rank exists); the boolean mutual_recursion (BFS) is only used to classify known-finding cases.',
     corr_name='Model/Datalog.v eval_engine vs IQLEngine::execute_tuples (all optimisations off, 1 worker)',
     rule='shape-first generator (1-4 derived heads + query, 1-3 clauses each, self recursion, 2-cycles, negation on lower heads/EDB, comparisons, '
          'integer arithmetic, wildcards, constants, string column) x 1-2 EDBs over a 3-5 value domain, plus a hand-written corpus and targeted families: shared-subplan, bound-recursive query (`__query__` head, Magic Sets shape), negated relation defined later in the text, recursive answer relation, multi-key joins with permuted key order, union of projections, two-clause query heads, shuffled rule order; '
